@@ -309,8 +309,21 @@ def check_case(case, rec):
 
     wl_check('after construction')
     thick_obj_inf = False
+    def stop_moved_to_object_image():
+        # a solve at or in front of the stop of a finite-object lens moves the stop (known mechanism
+        # solve-moves-entrance-pupil); when it lands on the image of the axial object point the entrance pupil is
+        # the object plane and no marginal ray exists any more: nothing later in this history is defined
+        if not (solves and not math.isinf(sh[0]['z']) and any(s_[1] <= [d['stop'] for d in sh].index(True) for s_ in solves)):
+            return False
+        with np.errstate(all='ignore'):
+            ya_, ua_ = lens.paraxial.marginal_ray()
+        return not (np.all(np.isfinite(ya_)) and np.all(np.isfinite(ua_)))
+
     for op in case['ops']:
         name = op[0]
+        if stop_moved_to_object_image():
+            rec.cls('marginal-ray-undefined-after-solve-moved-the-stop:history-ended')
+            break
         kinds.add(name if name != 'var' else f'var-{op[1]}')
         before = snapshot(lens)
         expect = copy.deepcopy(sh)
@@ -444,6 +457,9 @@ def check_case(case, rec):
             _, v, pri = op
             lens.add_wavelength(v, is_primary=pri)
             wl_check(f'after add_wavelength({v},{pri})')
+        if name in ('solve', 'update') and stop_moved_to_object_image():
+            rec.cls('marginal-ray-undefined-after-solve-moved-the-stop:history-ended')
+            break
         after = snapshot(lens)
         if rigid_from is not None:
             # a solve may move surfaces >= rigid_from along z (by amounts decided by the solve clauses below);
